@@ -142,6 +142,13 @@ Fixpoint run_gen (fx : bool) (s : st) (ops : list op) : st * list (res * list ev
               let '(s2, tr) := run_gen fx s1 r in (s2, (rs, es) :: tr)
   end.
 Definition run := run_gen true.
+(* per operation: is the flush goroutine running once the operation has returned *)
+Fixpoint lives_gen (fx : bool) (s : st) (ops : list op) : list bool :=
+  match ops with
+  | [] => []
+  | o :: r => let s1 := fst (fst (step_gen fx s o)) in loop s1 :: lives_gen fx s1 r
+  end.
+Definition lives := lives_gen true.
 Definition init (c : Z) (outs : sk) : st :=
   {| cfg := c; inited := false; stopped := false; loop := false;
      w := {| size := 0; buf := []; berr := 0 |}; k := outs |}.
@@ -223,6 +230,39 @@ Definition strong_ok (c : Z) (ops : list op) (tr : list (res * list ev)) (alive 
   | None => false
   end.
 
+(* Lifecycle of the flush goroutine, for ANY sink (reliable or not), by the documentation alone:
+   the flush loop runs from the first Write to the first Stop after it.  A Stop before the first
+   Write is a no-op and does NOT consume the one effective Stop; every Stop (first, repeated,
+   before or after use) leaves no flush goroutine behind; a tick reaches the sink exactly while
+   the loop runs.  Judged on three observables that do not depend on the sink's behaviour:
+   [live] = per operation, is a flush goroutine present once the operation has returned;
+   the result [RT d] of every tick (d = the tick was received and its Sync reached the sink) and
+   the sink events during a tick that was not received; [alive] = a tick sent after the whole
+   history is still served. *)
+Definition phase_step (p : phase) (o : op) : phase :=
+  match o, p with Write _, Fresh => Running | Stop, Running => Stopped | _, _ => p end.
+Definition spec_phase (ops : list op) : phase := fold_left phase_step ops Fresh.
+Fixpoint phases (p : phase) (ops : list op) : list phase :=
+  match ops with [] => [] | o :: r => phase_step p o :: phases (phase_step p o) r end.
+Definition tick_ok (p : phase) (o : op) (r : res) (es : list ev) : bool :=
+  match o, r with
+  | Tick, RT d => Bool.eqb d (is_running p) && (d || is_nil es)
+  | _, _ => true
+  end.
+Fixpoint lrun (p : phase) (ops : list op) (tr : list (res * list ev)) (live : list bool) : option phase :=
+  match ops, tr, live with
+  | [], [], [] => Some p
+  | o :: ops1, (r, es) :: tr1, l :: live1 =>
+      if Bool.eqb l (is_running (phase_step p o)) && tick_ok p o r es
+      then lrun (phase_step p o) ops1 tr1 live1 else None
+  | _, _, _ => None
+  end.
+Definition life_ok (ops : list op) (tr : list (res * list ev)) (live : list bool) (alive : bool) : bool :=
+  match lrun Fresh ops tr live with
+  | Some p => Bool.eqb alive (is_running p)
+  | None => false
+  end.
+
 (* Unreliable sink (any outcome script): the bytes the sink holds are, in order and without
    duplication, the bytes the Writes reported as consumed; the rest is still pending.
    [pend] = consumed bytes not yet in the sink. *)
@@ -256,8 +296,9 @@ Fixpoint wrun (pend : bytes) (ops : list op) (tr : list (res * list ev)) : bool 
 (* ------------------------------------------------------------------ *)
 (* wire.  input = (size (op ...) (outcome ...));  op = (0 #bytes) | (1) | (2) | (3);
    outcome = (short err), short = -1 for "takes everything".
-   observation = (((res (ev ...)) ...) alive); res = (0 n e) | (1 e) | (2 d) | (3 e);
-   ev = (0 #p n) | (1). *)
+   observation = (((res (ev ...)) ...) alive (live ...)); res = (0 n e) | (1 e) | (2 d) | (3 e);
+   ev = (0 #p n) | (1); live = one flag per operation (flush goroutine present after it returned;
+   empty in mode 1). *)
 Definition dec_op (s : sx) : op :=
   match sx_z (sx_nth s 0) with
   | 0%Z => Write (sx_b (sx_nth s 1))
@@ -314,13 +355,16 @@ Fixpoint brun (bk : bufio * sk) (ops : list op) : list (res * list ev) :=
 Definition bops (ops : list op) : list op := map (fun o => match o with Write bs => Write bs | _ => Sync end) ops.
 Definition mode_of (i : sx) : bool := sx_bool (sx_nth i 3).
 
+Definition enc_live (l : list bool) : sx := SL (map of_bool l).
+Definition dec_live (s : sx) : list bool := map sx_bool (sx_l s).
+
 Definition model (i : sx) : sx :=
   let '(c, ops, outs) := dec_case i in
   if mode_of i then
-    SL [enc_tr (brun ({| size := bsize c; buf := []; berr := 0 |}, outs) (bops ops)); of_bool false]
+    SL [enc_tr (brun ({| size := bsize c; buf := []; berr := 0 |}, outs) (bops ops)); of_bool false; enc_live []]
   else
     let '(s, tr) := run (init c outs) ops in
-    SL [enc_tr tr; of_bool (loop s)].
+    SL [enc_tr tr; of_bool (loop s); enc_live (lives (init c outs) ops)].
 
 Definition is_ok (o : outcome) : bool := match o_short o with None => negb (o_err o) | Some _ => false end.
 Definition reliable (outs : sk) : bool := forallb is_ok outs.
@@ -331,9 +375,11 @@ Definition spec (i o : sx) : bool :=
   let '(c, ops, outs) := dec_case i in
   let tr := dec_tr (sx_nth o 0) in
   let alive := sx_bool (sx_nth o 1) in
-  sx_eqb o (SL [enc_tr tr; of_bool alive]) &&
-  (if mode_of i then wrun [] (bops ops) tr && negb alive
-   else if reliable outs then strong_ok c ops tr alive else wrun [] ops tr).
+  let live := dec_live (sx_nth o 2) in
+  sx_eqb o (SL [enc_tr tr; of_bool alive; enc_live live]) &&
+  (if mode_of i then wrun [] (bops ops) tr && negb alive && is_nil live
+   else life_ok ops tr live alive &&
+        (if reliable outs then strong_ok c ops tr alive else wrun [] ops tr)).
 
 (* ------------------------------------------------------------------ *)
 (* vocabulary of the theorems in Props/C12.v (specification side; nothing here mentions
@@ -364,10 +410,7 @@ Definition res_ok (o : op) (r : res) : Prop :=
   | Stop, RStop e => e = 0
   | _, _ => False
   end.
-(* lifecycle by the documentation: the flush loop runs from the first Write to the first Stop after it *)
-Definition phase_step (p : phase) (o : op) : phase :=
-  match o, p with Write _, Fresh => Running | Stop, Running => Stopped | _, _ => p end.
-Definition spec_phase (ops : list op) : phase := fold_left phase_step ops Fresh.
+(* [phase_step] / [spec_phase] (lifecycle by the documentation) are defined above, before [spec] *)
 (* the bytes the Writes reported as consumed (n of every (n, err)) *)
 Definition consumed1 (x : op * (res * list ev)) : bytes :=
   match x with (Write bs, (RW n _, _)) => firstn n bs | _ => [] end.
